@@ -195,7 +195,8 @@ FAIL_CLASSES = ["ValueError", "KeyError", "CustomError", "StrError",
                 "OSError", "FileNotFoundError", "TimeoutError",
                 "ZeroDivisionError", "UnicodeError", "AttributeError",
                 "RecursionError", "KeyboardInterrupt", "SystemExit",
-                "GeneratorExit", "StopIteration", "AssertionError"]
+                "GeneratorExit", "StopIteration", "AssertionError",
+                "Exception", "Exception", "UserWarning"]
 LEADS = ["", "\n", "é日本\n  ", "<!-- c -->\n", "<b>x</b> "]
 FAIL_SITES = {
     "text": "<i>{lead}${{boom('{cls}', 'T')}}</i>",
